@@ -55,6 +55,7 @@ func c19Alphabet(tier string) []seqSym {
 		sy("RENAMENX", "k1", "k2"),
 		sy("FLUSHDB"),
 		sy("JSET", "k1", "a", "x", "1"),
+		sy("JSET", "k3", "x", "", "1"), // refused (empty path) on a key that does not exist: must leave nothing behind
 		sy("JDEL", "k1", "a", "x"),
 	}
 	if tier == "thorough" {
